@@ -327,6 +327,27 @@ pub fn translate(repo: &Path) -> String {
     out.push_str("Definition gen_own_helpers : list (string * (pat * own)) :=\n  [");
     out.push_str(&helpers.iter().map(|(n, b)| format!("({}, {})", coq_str(n), b)).collect::<Vec<_>>().join(";\n   "));
     out.push_str("].\n\n");
+    // the entry point: `impl Response { pub fn from_bytes(buf) -> ParseResult { <body> } }` and every other function of lib/types
+    // that calls the parser: the model's `parse` is `parser::parse_response`, so the body must be exactly that call
+    let mut entry = String::from("<not found>");
+    {
+        let src = std::fs::read_to_string(repo.join("imap-proto/src/types.rs")).unwrap();
+        let file = syn::parse_file(&src).unwrap();
+        for item in &file.items {
+            if let Item::Impl(im) = item {
+                if im.trait_.is_none() && tokens_of(&im.self_ty).starts_with("Response") {
+                    for it in &im.items {
+                        if let ImplItem::Fn(f) = it {
+                            if f.sig.ident == "from_bytes" {
+                                entry = f.block.stmts.iter().map(|s| tokens_of(s)).collect::<Vec<_>>().join(" ; ").replace(' ', "");
+                            }
+                        }
+                    }
+                }
+            }
+        }
+    }
+    out.push_str(&format!("(* body of Response::from_bytes, tokens without spaces *)\nDefinition gen_from_bytes_body : string := {}.\n\n", coq_str(&entry)));
     out.push_str("Definition gen_own_problems : list string :=\n  [");
     out.push_str(&problems.iter().map(|p| coq_str(p)).collect::<Vec<_>>().join(";\n   "));
     out.push_str("].\n");
